@@ -131,12 +131,21 @@ def _gen(batch, idx):
     return games.gen_class(rng, c)
 
 
+NESTED_LABELS = {"a": "go", "b": "go_slow", "c": "g", "d": "slow", "e": "o", "f": "", "g": "go_", "h": "w", "u": "up", "w": "upper",
+                 "stay": "st", "leave": "stay_or_leave", "n": "x", "x": "xx", "y": "xxy", "l": "left", "r": "le", "t": "t", "m": "tm", "k": "k"}
+
+
 def run_batch(batch):
     monitors.install()
     monitors.MON.flags.update(alias=False, prune=False)
     for idx in range(batch["start"], batch["start"] + batch["count"]):
         EMIT_START(idx)
         gd = _gen(batch, idx)
+        if gd is not None and idx % 2 == 1:
+            # action names that are substrings of each other (and the empty name): membership tests on names must be exact
+            labs = games.all_labels(gd)
+            if all(l in NESTED_LABELS for l in labs):
+                gd = games.rename_actions(gd, NESTED_LABELS)
         if gd is None:
             yield sc.skipped(idx, "generator gave up")
             continue
